@@ -243,7 +243,7 @@ func (f *fnnCtx) recvStoresFNN(fn *ssa.Function) bool {
 
 func runC18(c *Ctx) {
 	P := c.P
-	c.Explanation = "Decides: (R-NONNIL-FRESH) every value returned by New, NewSize, Clone, Intersect, Range, Keys and Values is a map allocated inside the call and provably non-nil — a make; maps.Clone(x) only under the fact x != nil; the result of a receiver-returning helper applied to such a map; or the content of a local cell that only ever receives such maps (including through (*Set).Add/AddAll, whose stores through the receiver are summarised) — and is never a parameter, so results cannot alias arguments; AddAll on a nil receiver stores a clone, not its argument. (R-NIL-LAZY) in pointer-receiver methods every update of *s is preceded on all paths by *s != nil or by storing a fresh map. (R-LIST-WHOLE) a variadic list of items is never re-sliced to an upper bound other than its own length. Does NOT decide the set-theoretic answers of the predicates, Pop, or Slice."
+	c.Explanation = "Decides: (R-NONNIL-FRESH) every value returned by New, NewSize, Clone, Intersect, Range, Keys and Values is a map allocated inside the call and provably non-nil — a make; maps.Clone(x) only under the fact x != nil; the result of a receiver-returning helper applied to such a map; or the content of a local cell that only ever receives such maps (including through (*Set).Add/AddAll, whose stores through the receiver are summarised) — and is never a parameter, so results cannot alias arguments; AddAll on a nil receiver stores a clone, not its argument. (R-NIL-LAZY) in pointer-receiver methods every update of *s is preceded on all paths by *s != nil or by storing a fresh map. (R-LIST-WHOLE) a variadic list of items is never re-sliced to an upper bound other than its own length. (R-ARG-IMMUTABLE) map updates and deletes go through the receiver or a fresh map, never through an argument set. Does NOT decide the set-theoretic answers of the predicates, Pop, or Slice."
 	c.rule("R-NONNIL-FRESH", 7, "returned sets are fresh, non-nil, and never a parameter; stores through a *Set receiver store fresh non-nil maps")
 	c.rule("R-ARG-IMMUTABLE", 4, "a map update or delete in package mapset goes through the receiver (or a map allocated in the function), never through a set passed as an argument")
 	for _, fn := range P.PkgFuncs("mapset") {
